@@ -147,3 +147,67 @@ def delimCfg (d : Char) : Cfg where
 def defaultCfg : Cfg := delimCfg '$'
 
 end CV.Template
+
+/-! ## Custom patterns that are not "the default format with another delimiter"
+
+Three further regular expressions as matchers (`harness/p/c07/c07_opts.go` builds the same three regexps):
+
+* `strict` — the default format without the operator part: `\$(?i:(?P<escaped>\$)|(?P<named>N)|{(?:(?P<braced>N)}|(?P<invalid>)))`;
+* `angle`  — no delimiter, no braces, no `braced`/`invalid` group: `<<(?P<named>[a-z]+)>>|@(?P<escaped>@)`;
+* `dbl`    — a match that contains a `}` before its end: `\$\{(?P<braced>[a-z]+)\}\}|\$(?P<escaped>\$)`.
+  `DefaultReplacementAppliedFunc` truncates the match at the first balanced `}` and re-matches: the re-match
+  fails and `matchGroups` indexes a nil slice — the `panic matchGroups` outcome of the model is reachable.
+-/
+namespace CV.Template
+
+/-- `FindStringSubmatch` for a matcher that is tried at every position (leftmost match) -/
+def findBy (g : Str → Option (Groups × Str × Str)) : Str → Option Groups
+  | [] => none
+  | c :: cs =>
+    match g (c :: cs) with
+    | some x => some x.1
+    | none => findBy g cs
+
+def patCfg (g : Str → Option (Groups × Str × Str)) : Cfg where
+  matchAt s := (g s).map (fun x => (x.2.1, x.2.2))
+  find := findBy g
+  subsFunc := none
+  replFunc := none
+
+def matchStrictG : Str → Option (Groups × Str × Str)
+  | '$' :: '$' :: r => some (⟨['$'], [], []⟩, ['$', '$'], r)
+  | '$' :: '{' :: r =>
+    match r with
+    | c :: _ =>
+      if isNameStart c then
+        match (spanName r).2 with
+        | '}' :: r3 => some (⟨[], [], (spanName r).1⟩, '$' :: '{' :: (spanName r).1 ++ ['}'], r3)
+        | _ => some (⟨[], [], []⟩, ['$', '{'], r)
+      else some (⟨[], [], []⟩, ['$', '{'], r)
+    | [] => some (⟨[], [], []⟩, ['$', '{'], r)
+  | '$' :: c :: r =>
+    if isNameStart c then some (⟨[], (spanName (c :: r)).1, []⟩, '$' :: (spanName (c :: r)).1, (spanName (c :: r)).2)
+    else none
+  | _ => none
+
+def isLowerAscii (c : Char) : Bool := 'a' ≤ c && c ≤ 'z'
+
+def matchAngleG : Str → Option (Groups × Str × Str)
+  | '@' :: '@' :: r => some (⟨['@'], [], []⟩, ['@', '@'], r)
+  | '<' :: '<' :: r =>
+    match r.takeWhile isLowerAscii, r.dropWhile isLowerAscii with
+    | [], _ => none
+    | n, '>' :: '>' :: r3 => some (⟨[], n, []⟩, '<' :: '<' :: n ++ ['>', '>'], r3)
+    | _, _ => none
+  | _ => none
+
+def matchDblG : Str → Option (Groups × Str × Str)
+  | '$' :: '$' :: r => some (⟨['$'], [], []⟩, ['$', '$'], r)
+  | '$' :: '{' :: r =>
+    match r.takeWhile isLowerAscii, r.dropWhile isLowerAscii with
+    | [], _ => none
+    | n, '}' :: '}' :: r3 => some (⟨[], [], n⟩, '$' :: '{' :: n ++ ['}', '}'], r3)
+    | _, _ => none
+  | _ => none
+
+end CV.Template
